@@ -36,3 +36,21 @@ def run_batch(requests, chunk=20000):
                               % (len(lines), len(part), p.stderr.decode()[-2000:]))
         out.extend(json.loads(l) for l in lines)
     return out
+
+
+_PROC = None
+
+
+def run_one(request):
+    """one request through a driver process kept open for the whole run (for the occasional single question;
+    batches go through run_batch)"""
+    global _PROC
+    if _PROC is None or _PROC.poll() is not None:
+        _PROC = subprocess.Popen(driver_cmd(), cwd=LEAN_DIR, stdin=subprocess.PIPE, stdout=subprocess.PIPE,
+                                 stderr=subprocess.DEVNULL, bufsize=0)
+    _PROC.stdin.write((json.dumps(request, separators=(",", ":")) + "\n").encode())
+    _PROC.stdin.flush()
+    line = _PROC.stdout.readline()
+    if not line:
+        raise DriverError("driver closed its output")
+    return json.loads(line)
